@@ -7,6 +7,7 @@
   or host binding of the same name" clause.
 -/
 import SqLemmas.InvQuiet
+import SqLemmas.InvSep
 namespace SqProps.C10
 open Sq Sq.Inv
 
@@ -16,7 +17,7 @@ theorem step_writes_only_top_scopes {Pc : List Op → Op → Nat → Prop} {Pb P
     {Psh : Prop} (hok : OpsOK Pc Pb Po Pn Psh) (hb : ∀ n, Pb n → n ∉ mutatorNames) (hsh : ¬ Psh) (budgets : List Nat) (c : Core)
     (hc : CorePDg Pc Pb Pq Pr Po Pn Psh c) (a : Nat) (ha : a < c.w.heap.size) (hna : a ∉ topsOf c.w) :
     (stepCore budgets c).w.heap.get? a = c.w.heap.get? a :=
-  (step_hp hok hb hsh budgets c hc).keep a ha hna
+  (step_hp (M := fun _ => False) hok (pureOK_of_nonmut hb) (inplOK_of_not hsh) budgets c hc).toHStep.keep a ha hna
 
 /-- **assignments made during a lambda call never alter a covered (outer or host) scope** -/
 theorem assignments_in_calls_leave_covered_scopes (w : World) (bs : List Nat) (namesAddr budget : Nat) (tree : Op)
@@ -29,5 +30,70 @@ theorem assignments_in_calls_leave_covered_scopes (w : World) (bs : List Nat) (n
 
 /-- the top scopes are scope dictionaries (so "not a scope dictionary at all" is a special case of "covered") -/
 theorem tops_are_scopes {w : World} {a : Nat} (h : a ∈ topsOf w) : a ∈ scopesOf w := tops_sub_scopes h
+
+
+/-! ### programs WITH mutators and compound assignments: nobody refers to a scope dictionary -/
+
+/-- "no value of the world mentions the address `a`" — in any object of the heap, any pending engine answer, any probe
+    answer; closures, builtins, host callables and opaque objects of any kind are allowed -/
+abbrev Unmentioned (a : Nat) (w : World) : Prop :=
+  WorldNPg (fun _ _ _ => True) (fun _ => True) (fun _ => True) (· ≠ a) w
+
+theorem opsOK_any : OpsOK (fun _ _ _ => True) (fun _ => True) (fun _ => True) (fun _ => True) True where
+  builtin := fun _ _ _ => trivial
+  name := fun _ _ => trivial
+  call := fun _ _ _ => ⟨trivial, fun _ _ => trivial⟩
+  short := fun _ _ _ _ => ⟨trivial, trivial, trivial⟩
+  assign := fun _ _ _ => trivial
+  lambda := fun _ _ _ _ => trivial
+  body := fun _ _ _ _ => trivial
+  code := fun _ _ _ _ => trivial
+  bin := fun _ _ _ _ => ⟨trivial, trivial⟩
+  unary := fun _ _ _ => trivial
+  ifx := fun _ _ _ _ => ⟨trivial, trivial, trivial⟩
+  slice := fun _ _ _ _ => ⟨trivial, trivial, trivial⟩
+  dict := fun _ _ _ _ => trivial
+
+/-- **a covered scope dictionary survives every program** — mutators (`push`, `pop`, `insert`, `remove`, index assignment,
+    compound index assignment, `del`) and compound assignments included: if no value of the host's world mentions the
+    address `a` (nobody holds a reference to that dictionary — in particular `a` may be the host's names mapping or any
+    scope beneath a lambda call), then along the whole evaluation of ANY program the object at `a` keeps its content for
+    as long as `a` is not the top scope of a VM state.  Assignments write to the top scope only; mutators reach objects
+    only through values, and no value ever comes to mention `a`. -/
+theorem covered_scopes_survive_any_program (w : World) (bs : List Nat) (namesAddr budget : Nat) (tree : Op)
+    (astNames : List (Name × Op)) (a : Nat) (ha : a < w.heap.size) (hw : Unmentioned a w) (n : Nat)
+    (hcov : ∀ i, i < n → a ∉ topsOf (run i (initCfg w bs namesAddr budget tree astNames)).w) :
+    (run n (initCfg w bs namesAddr budget tree astNames)).w.heap.get? a = w.heap.get? a := by
+  have hw' : Unmentioned a { w with vms := w.vms ++ [{ scopes := [namesAddr], ops := 0 }] } := ⟨hw.heap, hw.rx, hw.probes⟩
+  have h0 : CoreNPg (fun _ _ _ => True) (fun _ => True) (fun _ => True) (· ≠ a) (fun _ => True) (fun _ => True) True
+      (initCfg w bs namesAddr budget tree astNames).core := by
+    cases astNames with
+    | nil => exact ⟨trivial, fun fr hfr => (by cases hfr), hw'⟩
+    | cons p rest =>
+      obtain ⟨nm, op⟩ := p
+      refine ⟨trivial, ?_, hw'⟩
+      intro fr hfr
+      simp only [initCfg, Cfg.core, List.mem_singleton] at hfr
+      subst hfr
+      exact ⟨fun _ _ => trivial, trivial⟩
+  have := unmentioned_object_unchanged opsOK_any (fun _ => trivial) (initCfg w bs namesAddr budget tree astNames) h0 a
+    (by cases astNames <;> exact ha) (fun h => h rfl) n hcov
+  rw [this]
+  cases astNames <;> rfl
+
+/-- non-vacuity: the host's names mapping at address 0 holding a list (address 1) of numbers: nobody mentions 0 -/
+example : Unmentioned 0
+    { heap := #[.dict [(.str ['x'], .ref 1)], .list [.int 1, .int 2]], vms := [], log := [], rng := 0, rx := [],
+      probes := [] } := by
+  refine ⟨⟨?_, fun b hb => by simp at hb; omega⟩, fun a h => (by cases h), fun p h => (by cases h)⟩
+  intro b o hg
+  match b with
+  | 0 =>
+    simp [Heap.get?] at hg; subst hg
+    intro kv hkv; simp at hkv; subst hkv; exact ⟨.str, .ref (by decide)⟩
+  | 1 =>
+    simp [Heap.get?] at hg; subst hg
+    intro v hv; simp at hv; rcases hv with e | e <;> subst e <;> exact .int
+  | n + 2 => simp [Heap.get?] at hg
 
 end SqProps.C10
